@@ -373,3 +373,306 @@ func TestC18_Wrapper(t *testing.T) {
 		rec.Case(searches >= 2, map[string]any{"wrapper": true, "searches": searches, "loads": loads, "steps": len(steps)}, "wrapper")
 	})
 }
+
+// TestC18_Accessors: every way of reaching a series - the collector's methods, the package-level
+// default collector, timers, stand-alone histograms with buckets of their own - with resets in
+// between, against a model keyed by identity.
+func TestC18_Accessors(t *testing.T) {
+	rec := stat.For("C18")
+	rec.Rule("accessors: state machine over one collector (an own one, or the package-level default through DefaultCounter/DefaultGauge/DefaultHistogram/DefaultTimer/GetAllMetrics/ResetMetrics) and 2-5 identities, several of which share a name and differ in one tag value or one tag, or carry a name that looks like a derived series (x_duration, x_count, ...): counter inc/add/reset, gauge set/inc/dec/add, histogram observe, timer Time()/TimeFunc, collector reset; every lookup with the tag map rebuilt in another order. Oracle after every step: each identity's counter, gauge, histogram count/sum and timer count equal the model; the export holds exactly one counter, gauge and histogram series per identity, with the model's value (series the collector may add of its own accord are not counted); a timed function runs exactly once. Stand-alone histograms with 1-6 ascending buckets: count, sum, mean exact, percentiles non-decreasing. Non-trivial = two identities share a name and both were written, or a reset happened between writes.")
+	rapid.Check(t, func(t *rapid.T) {
+		useDefault := rapid.Bool().Draw(t, "default-collector")
+		own := metrics.NewCollector()
+		if useDefault {
+			metrics.ResetMetrics()
+		}
+		counter := func(n string, tg map[string]string) *metrics.Counter {
+			if useDefault {
+				return metrics.DefaultCounter(n, tg)
+			}
+			return own.Counter(n, tg)
+		}
+		gauge := func(n string, tg map[string]string) *metrics.Gauge {
+			if useDefault {
+				return metrics.DefaultGauge(n, tg)
+			}
+			return own.Gauge(n, tg)
+		}
+		histogram := func(n string, tg map[string]string) *metrics.Histogram {
+			if useDefault {
+				return metrics.DefaultHistogram(n, tg)
+			}
+			return own.Histogram(n, tg)
+		}
+		timer := func(n string, tg map[string]string) *metrics.Timer {
+			if useDefault {
+				return metrics.DefaultTimer(n, tg)
+			}
+			return own.Timer(n, tg)
+		}
+		export := func() []metrics.Metric {
+			if useDefault {
+				return metrics.GetAllMetrics()
+			}
+			return own.GetAllMetrics()
+		}
+		type ident struct {
+			name string
+			tags map[string]string
+		}
+		type state struct {
+			counter   int64
+			gauge     int64
+			obsN      int64
+			obsSum    int64
+			timed     int64
+			written   bool
+			afterWipe bool
+		}
+		idKey := func(id ident) string { return fmt.Sprintf("%s|%v", id.name, sortedTags(id.tags)) }
+		var ids []ident
+		seen := map[string]bool{}
+		add := func(id ident) {
+			if !seen[idKey(id)] {
+				seen[idKey(id)] = true
+				ids = append(ids, id)
+			}
+		}
+		base := ident{c18Name.Draw(t, "name"), c18Tags(t)}
+		add(base)
+		for i := rapid.IntRange(1, 4).Draw(t, "more-identities"); i > 0; i-- {
+			switch rapid.SampledFrom([]string{"other-name", "other-value", "one-more-tag", "one-tag-less", "no-tags", "derived-name"}).Draw(t, "relation") {
+			case "derived-name":
+				// a name that looks like a series the collector derives from another metric
+				add(ident{base.name + rapid.SampledFrom([]string{"_duration", "_count", "_sum", "_mean", "_p50", "_duration_count"}).Draw(t, "suffix"), rebuilt(base.tags, 2)})
+			case "other-name":
+				add(ident{c18Name.Draw(t, "name2"), rebuilt(base.tags, 1)})
+			case "other-value":
+				tg := rebuilt(base.tags, 0)
+				ks := make([]string, 0, len(tg))
+				for k := range tg {
+					ks = append(ks, k)
+				}
+				sort.Strings(ks)
+				if len(ks) > 0 { // the identity differs from base in one value
+					k := ks[rapid.IntRange(0, len(ks)-1).Draw(t, "changed-key")]
+					tg[k] = tg[k] + "x"
+				}
+				add(ident{base.name, tg})
+			case "one-more-tag":
+				tg := map[string]string{}
+				for k, v := range base.tags {
+					tg[k] = v
+				}
+				tg["zz"+c18Name.Draw(t, "extra-key")] = c18Val.Draw(t, "extra-val")
+				add(ident{base.name, tg})
+			case "one-tag-less":
+				tg := map[string]string{}
+				ks := make([]string, 0, len(base.tags))
+				for k := range base.tags {
+					ks = append(ks, k)
+				}
+				sort.Strings(ks)
+				if len(ks) > 0 {
+					drop := ks[rapid.IntRange(0, len(ks)-1).Draw(t, "drop")]
+					for k, v := range base.tags {
+						if k != drop {
+							tg[k] = v
+						}
+					}
+				}
+				add(ident{base.name, tg})
+			default:
+				add(ident{base.name, nil})
+			}
+		}
+		ids = rapid.Permutation(ids).Draw(t, "identity-order")
+		model := map[string]*state{}
+		for _, id := range ids {
+			model[idKey(id)] = &state{}
+		}
+		wiped, sharedWritten := false, false
+		var steps []string
+		pick := func(t *rapid.T) (ident, *state, map[string]string) {
+			id := ids[rapid.IntRange(0, len(ids)-1).Draw(t, "identity")]
+			return id, model[idKey(id)], rebuilt(id.tags, rapid.IntRange(0, 5).Draw(t, "tag-order"))
+		}
+		wrote := func(id ident, st *state) {
+			st.written = true
+			if wiped {
+				st.afterWipe = true
+			}
+			for _, o := range ids {
+				if o.name == id.name && idKey(o) != idKey(id) && model[idKey(o)].written {
+					sharedWritten = true
+				}
+			}
+		}
+		t.Repeat(map[string]func(*rapid.T){
+			"counter": func(t *rapid.T) {
+				id, st, tg := pick(t)
+				c := counter(id.name, tg)
+				switch rapid.SampledFrom([]string{"inc", "inc", "add", "reset"}).Draw(t, "op") {
+				case "inc":
+					c.Inc()
+					st.counter++
+				case "add":
+					k := rapid.Int64Range(0, 1000).Draw(t, "k")
+					c.Add(k)
+					st.counter += k
+				default:
+					c.Reset()
+					st.counter = 0
+				}
+				steps = append(steps, "counter "+idKey(id))
+				wrote(id, st)
+			},
+			"gauge": func(t *rapid.T) {
+				id, st, tg := pick(t)
+				g := gauge(id.name, tg)
+				switch rapid.SampledFrom([]string{"set", "inc", "dec", "add"}).Draw(t, "op") {
+				case "set":
+					v := rapid.Int64Range(-1000, 1000).Draw(t, "v")
+					g.Set(float64(v))
+					st.gauge = v
+				case "inc":
+					g.Inc()
+					st.gauge++
+				case "dec":
+					g.Dec()
+					st.gauge--
+				default:
+					v := rapid.Int64Range(-50, 50).Draw(t, "v")
+					g.Add(float64(v))
+					st.gauge += v
+				}
+				steps = append(steps, "gauge "+idKey(id))
+				wrote(id, st)
+			},
+			"observe": func(t *rapid.T) {
+				id, st, tg := pick(t)
+				v := rapid.Int64Range(0, 20000).Draw(t, "v")
+				histogram(id.name, tg).Observe(float64(v))
+				st.obsN++
+				st.obsSum += v
+				steps = append(steps, "observe "+idKey(id))
+				wrote(id, st)
+			},
+			"time": func(t *rapid.T) {
+				id, st, tg := pick(t)
+				tm := timer(id.name, tg)
+				if rapid.Bool().Draw(t, "time-func") {
+					ran := 0
+					tm.TimeFunc(func() { ran++ })
+					if ran != 1 {
+						t.Fatalf("TimeFunc ran the function %d times; steps=%v", ran, steps)
+					}
+				} else {
+					stop := tm.Time()
+					stop()
+				}
+				st.timed++
+				steps = append(steps, "time "+idKey(id))
+				wrote(id, st)
+			},
+			"reset-collector": func(t *rapid.T) {
+				if useDefault {
+					metrics.ResetMetrics()
+				} else {
+					own.Reset()
+				}
+				for k := range model {
+					w := model[k].written
+					model[k] = &state{}
+					if w {
+						wiped = true
+					}
+				}
+				steps = append(steps, "reset-collector")
+			},
+			"": func(t *rapid.T) {
+				for _, id := range ids {
+					st := model[idKey(id)]
+					tg := rebuilt(id.tags, len(steps))
+					if v := counter(id.name, tg).Value(); v != st.counter {
+						t.Fatalf("counter %s = %d, %d increments were applied to it; steps=%v", idKey(id), v, st.counter, steps)
+					}
+					if v := gauge(id.name, tg).Value(); v != float64(st.gauge) {
+						t.Fatalf("gauge %s = %v, the operations applied to it give %d; steps=%v", idKey(id), v, st.gauge, steps)
+					}
+					h := histogram(id.name, tg)
+					if h.Count() != st.obsN || h.Sum() != float64(st.obsSum) {
+						t.Fatalf("histogram %s reports count=%d sum=%v, %d observations summing to %d were made; steps=%v", idKey(id), h.Count(), h.Sum(), st.obsN, st.obsSum, steps)
+					}
+					th := timer(id.name, tg).Histogram()
+					if th.Count() != st.timed || th.Sum() < 0 {
+						t.Fatalf("timer %s reports count=%d sum=%v after %d timed operations; steps=%v", idKey(id), th.Count(), th.Sum(), st.timed, steps)
+					}
+				}
+				type cell struct {
+					n int
+					v float64
+				}
+				seenC, seenG, seenH := map[string]*cell{}, map[string]*cell{}, map[string]*cell{}
+				bump := func(m map[string]*cell, k string, v float64) {
+					if m[k] == nil {
+						m[k] = &cell{}
+					}
+					m[k].n++
+					m[k].v = v
+				}
+				for _, m := range export() {
+					switch {
+					case m.Type == metrics.MetricTypeCounter:
+						bump(seenC, fmt.Sprintf("%s|%v", m.Name, sortedTags(m.Tags)), m.Value)
+					case m.Type == metrics.MetricTypeGauge:
+						bump(seenG, fmt.Sprintf("%s|%v", m.Name, sortedTags(m.Tags)), m.Value)
+					case m.Type == metrics.MetricTypeHistogram && strings.HasSuffix(m.Name, "_count"):
+						bump(seenH, fmt.Sprintf("%s|%v", strings.TrimSuffix(m.Name, "_count"), sortedTags(m.Tags)), m.Value)
+					}
+				}
+				for _, id := range ids {
+					st, k := model[idKey(id)], idKey(id)
+					if c := seenC[k]; c == nil || c.n != 1 || c.v != float64(st.counter) {
+						t.Fatalf("export: counter %s appears as %+v, want one series with value %d; steps=%v", k, c, st.counter, steps)
+					}
+					if c := seenG[k]; c == nil || c.n != 1 || c.v != float64(st.gauge) {
+						t.Fatalf("export: gauge %s appears as %+v, want one series with value %d; steps=%v", k, c, st.gauge, steps)
+					}
+					if c := seenH[k]; c == nil || c.n != 1 || c.v != float64(st.obsN) {
+						t.Fatalf("export: histogram %s appears as %+v, want one series with count %d; steps=%v", k, c, st.obsN, steps)
+					}
+				}
+			},
+		})
+		// a stand-alone histogram with buckets of its own
+		nb := rapid.IntRange(1, 6).Draw(t, "n-buckets")
+		bs := rapid.SliceOfNDistinct(rapid.Float64Range(-100, 100000), nb, nb, func(f float64) float64 { return f }).Draw(t, "buckets")
+		sort.Float64s(bs)
+		sh := metrics.NewHistogramWithBuckets("own", bs, nil)
+		obs := rapid.SliceOfN(rapid.Int64Range(-200, 200000), 0, 30).Draw(t, "own-observations")
+		var sum int64
+		for _, o := range obs {
+			sh.Observe(float64(o))
+			sum += o
+		}
+		if sh.Count() != int64(len(obs)) || sh.Sum() != float64(sum) {
+			t.Fatalf("histogram with buckets %v reports count=%d sum=%v after %d observations summing to %d", bs, sh.Count(), sh.Sum(), len(obs), sum)
+		}
+		if len(obs) > 0 && sh.Mean() != float64(sum)/float64(len(obs)) {
+			t.Fatalf("histogram with buckets %v: mean %v, want %v", bs, sh.Mean(), float64(sum)/float64(len(obs)))
+		}
+		prev := math.Inf(-1)
+		for _, p := range []float64{0, 1, 10, 25, 50, 75, 90, 95, 99, 99.9, 100} {
+			v := sh.Percentile(p)
+			if v < prev {
+				t.Fatalf("histogram with buckets %v, observations %v: P(%v)=%v is below the previous percentile %v", bs, obs, p, v, prev)
+			}
+			prev = v
+		}
+		if useDefault {
+			metrics.ResetMetrics()
+		}
+		rec.Case(sharedWritten || wiped, map[string]any{"identities": len(ids), "default_collector": useDefault, "steps": len(steps), "own_buckets": bs}, "accessors", fmt.Sprintf("default-collector:%v", useDefault))
+	})
+}
